@@ -196,7 +196,7 @@ fn file_case(ctx: &Ctx, stream: &str, idx: u64, cfg: &WCfg, entries: &[Entry], r
 
 pub fn run(ctx: &Ctx) -> i32 {
     // files, including values that embed a byte-exact valid trailer
-    let n = ctx.n(6000, 60_000);
+    let n = ctx.n(6000, 400_000);
     ctx.par("files", n, true, |idx, rng| {
         let (mut entries, mut cfg, _) = gen::gen_file_case(rng, 6000);
         // keep files around <= 12 KiB so that every truncation length is affordable
